@@ -259,6 +259,64 @@ def nestPath (p : List Seg) : List Seg :=
 
 def nestItem (it : Item) : Item := { it with tree := .mk (nestPath it.tree.path) }
 
+/-! ## Visibility: `is_same_visibility` (utils.rs:40-50), `UseTree::same_visibility` (imports.rs) -/
+
+/-- `ast::VisibilityKind`.  `Restricted { path, shorthand }` carries the names of the path segments
+(the `{{root}}` segment of a global path `pub(in ::a)` is the empty name, which is how `pprust`
+prints it) and the `shorthand` flag (`pub(crate)` against `pub(in crate)`). -/
+inductive Vis where
+  | vpub
+  | vinh
+  | vres (path : List (List Char)) (shorthand : Bool)
+  deriving DecidableEq, Repr
+
+/-- `pprust::path_to_string`: the segment names joined by `::`. -/
+def pathToString : List (List Char) → List Char
+  | [] => []
+  | [n] => n
+  | n :: m :: r => n ++ ':' :: ':' :: pathToString (m :: r)
+
+/-- utils.rs:40-50 `is_same_visibility`: two restricted visibilities are the same when their paths
+print alike (the `shorthand` flag is not looked at); `Public` and `Inherited` only equal themselves. -/
+def isSameVisibility : Vis → Vis → Bool
+  | .vres p _, .vres q _ => pathToString p == pathToString q
+  | .vpub, .vpub => true
+  | .vinh, .vinh => true
+  | _, _ => false
+
+/-- imports.rs `UseTree::same_visibility`: a missing visibility (nested and `from_path` trees) and an
+inherited one are the same; otherwise `is_same_visibility`. -/
+def sameVisibility : Option Vis → Option Vis → Bool
+  | some .vinh, none => true
+  | none, some .vinh => true
+  | none, none => true
+  | some a, some b => isSameVisibility a b
+  | _, _ => false
+
+/-- The key by which `Item.vis` stands for a visibility: empty for inherited, `pub`, `pub(<path>)`. -/
+def visKey : Vis → List Char
+  | .vinh => []
+  | .vpub => ['p', 'u', 'b']
+  | .vres p _ => 'p' :: 'u' :: 'b' :: '(' :: (pathToString p ++ [')'])
+
+/-- What a visibility denotes: the `shorthand` flag erased. -/
+inductive VisDen where
+  | pub
+  | priv
+  | within (path : List (List Char))
+  deriving DecidableEq, Repr
+
+def visDen : Vis → VisDen
+  | .vpub => .pub
+  | .vinh => .priv
+  | .vres p _ => .within p
+
+/-- A visibility as the parser builds it: a restricted path has at least one segment and no name
+contains a colon. -/
+def visWF : Vis → Bool
+  | .vres p _ => !p.isEmpty && p.all (fun n => !n.contains ':')
+  | _ => true
+
 /-! ## `share_prefix` -/
 
 /-- imports.rs:647-667 `same_visibility`: `None` and `Some(Inherited)` (key `""`) are the same. -/
